@@ -242,6 +242,28 @@ def prove(prop):
     return res
 
 
+def coqchk(prop):
+    """thorough tier: re-check the compiled property file and everything it depends on with the
+    independent checker, and report the axioms it lists."""
+    args = ["coqchk", "-silent", "-o", "-Q", "Lib", "V.Lib", "-Q", "Gen", "V.Gen", "-Q", "Model", "V.Model",
+            "-Q", "Proofs", "V.Proofs", "-Q", "Properties", "V.Properties", "V.Properties.%s" % prop]
+    rc, out, dt = run(args, cwd=COQ, timeout=3600)
+    res = {"ok": rc == 0, "wall_s": round(dt, 1), "axioms": [], "log": out[-3000:]}
+    m = re.search(r"\* Axioms:(.*?)\n\s*\n\* Constants", out, re.S)
+    if m:
+        body = m.group(1).strip()
+        if body and body != "<none>":
+            res["axioms"] = [l.strip() for l in body.splitlines() if l.strip()]
+    elif rc == 0:
+        res["ok"] = False
+    for key in ("type-in-type", "unsafe (co)fixpoints", "positivity is assumed"):
+        m2 = re.search(re.escape(key) + r":(.*?)(\n\s*\n|\Z)", out, re.S)
+        if m2 and m2.group(1).strip() not in ("<none>", ""):
+            res["ok"] = False
+            res["axioms"].append("%s: %s" % (key, m2.group(1).strip()[:200]))
+    return res
+
+
 # ------------------------------------------------------------------------------------------------
 # extracted model driver
 
